@@ -801,7 +801,16 @@ func (sa *Application) DeallocateAsk(allocKey string) (*resources.Resource, erro
 	sa.Lock()
 	defer sa.Unlock()
 	if ask := sa.requests[allocKey]; ask != nil {
-		return sa.deallocateAsk(ask)
+		delta, err := sa.deallocateAsk(ask)
+		// same as for a new ask: an application that was completing has something to schedule again
+		if err == nil && sa.IsCompleting() {
+			if err2 := sa.HandleApplicationEvent(RunApplication); err2 != nil {
+				log.Log(log.SchedApplication).Debug("Application state change failed while making an ask pending again",
+					zap.String("currentState", sa.CurrentState()),
+					zap.Error(err2))
+			}
+		}
+		return delta, err
 	}
 	return nil, fmt.Errorf("failed to locate ask with key %s", allocKey)
 }
